@@ -102,6 +102,24 @@ def run(ctx, rep, tier):
     for x in pushes:
         guards = ctx.guards(ctor, x) or []
         txt = [(pretty(gc), val) for gc, val, _a, _b in guards]
+        # the row index may come from a helper that returns only after the same throwing checks: add the guards that dominate
+        # every return of that helper
+        oc = canon(callee_info(x)["obj"])
+        if oc[0] == "index" and oc[2][0] == "var":
+            d = ctor.unit.by_id.get(oc[2][1])
+            init = children(d) if d is not None and d.get("kind") == "VarDecl" else []
+            if init and strip(init[-1]).get("kind") in ("CXXMemberCallExpr", "CallExpr"):
+                _c, hs = ctx.eff.resolve_callee(strip(init[-1]))
+                for h in hs:
+                    if h.body is None:
+                        continue
+                    from ..model import walk_no_lambda
+                    rets = [y for y in walk_no_lambda(h.body) if y.get("kind") == "ReturnStmt"]
+                    common = None
+                    for r in rets:
+                        gs = {(pretty(gc), val) for gc, val, _a, _b in (ctx.guards(h, r) or [])}
+                        common = gs if common is None else (common & gs)
+                    txt += sorted(common or [])
         ign = any("isIgnored" in t and v is False for t, v in txt)
         bounds = sum(1 for t, v in txt if v is False and ("minY" in t or "minX" in t or "maxX" in t))
         first = any("begin" in t and v is False for t, v in txt)
